@@ -294,6 +294,30 @@ func init() {
 		}
 	}
 
+	// ---- utf8 ----
+	I["unicode/utf8.DecodeRuneInString"] = func(th *Thread, fn *ssa.Function, args []Value) Value {
+		m := th.m
+		bs := m.strBytes(args[0].(Str))
+		if len(bs) == 0 {
+			return Tuple{m.ts.Const(32, 0xFFFD), m.ts.Const(64, 0)}
+		}
+		r, w := th.decodeRune(bs)
+		return Tuple{r, m.ts.Const(64, uint64(w))}
+	}
+	I["unicode/utf8.DecodeRune"] = func(th *Thread, fn *ssa.Function, args []Value) Value {
+		m := th.m
+		sl := args[0].(Slice)
+		if len(sl) == 0 {
+			return Tuple{m.ts.Const(32, 0xFFFD), m.ts.Const(64, 0)}
+		}
+		bs := make([]*Term, len(sl))
+		for i := range sl {
+			bs[i] = sl[i].(*Term)
+		}
+		r, w := th.decodeRune(bs)
+		return Tuple{r, m.ts.Const(64, uint64(w))}
+	}
+
 	// ---- runtime ----
 	I["runtime.GOMAXPROCS"] = func(th *Thread, fn *ssa.Function, args []Value) Value {
 		return th.m.ts.Const(64, uint64(th.m.env.gomaxprocs))
